@@ -26,7 +26,7 @@ static bytes gOut;                       // bytes that reached the output stream
 static std::vector<ToyMode *> gModes;
 static std::vector<std::string> gIntervals, gLoads, gAsserts;
 static std::string gLastObs;
-static std::vector<int> gWorkerBusy, gIoBusy;
+static std::vector<int> gWorkerBusy, gIoBusy, gHanded, gLoaded, gWorkerExited;
 static long gExports = 0;
 
 static ssize_t ck_write(void *, const char *buf, size_t n) { gOut.insert(gOut.end(), buf, buf + n); return (ssize_t)n; }
@@ -67,12 +67,14 @@ extern "C" void wencry_verif_point(int kind, int id) {
         if (me != id + 1) gAsserts.push_back("buffer " + S(id) + " accessed by thread " + S(me - 1));
         gWorkerBusy[id] = 1; break;
       case WV_GET_NULL: gWorkerBusy[id] = 0; break;
-      case WV_GET_SOME: if (gIoBusy[id]) gAsserts.push_back("worker " + S(id) + " got a block while the I/O thread is inside the buffer"); break;
+      case WV_GET_SOME: gHanded[id]++; if (gIoBusy[id]) gAsserts.push_back("worker " + S(id) + " got a block while the I/O thread is inside the buffer"); break;
+      case WV_WORKER_EXIT: gWorkerExited[id] = 1; break;
       case WV_BLOCK_DONE:
         if (st != READY) gAsserts.push_back("worker " + S(id) + " finished a block while its buffer is in state " + S(st));
         if (gIoBusy[id]) gAsserts.push_back("worker " + S(id) + " transformed a block while the I/O thread is inside the buffer");
         gWorkerBusy[id] = 0; break;
       case WV_EXPORT_BEGIN: case WV_LOAD_BEGIN:
+        if (kind == WV_EXPORT_BEGIN && gHanded[id] != gLoaded[id]) gAsserts.push_back("buffer " + S(id) + " is exported although only " + S(gHanded[id]) + " of its " + S(gLoaded[id]) + " blocks were handed to its worker");
         if (st != EMPTY && st != UPDATING) gAsserts.push_back(std::string(kind == WV_LOAD_BEGIN ? "load" : "export") + " of buffer " + S(id) + " in state " + S(st));
         if (gWorkerBusy[id]) gAsserts.push_back(std::string(kind == WV_LOAD_BEGIN ? "load" : "export") + " of buffer " + S(id) + " while its worker is using it");
         gIoBusy[id] = 1; break;
@@ -80,6 +82,7 @@ extern "C" void wencry_verif_point(int kind, int id) {
       case WV_LOAD_END: {
         gIoBusy[id] = 0;
         const iobuffer *b = g->verif_buf(id);
+        gHanded[id] = 0; gLoaded[id] = (int)b->verif_total();
         std::string l = b->verif_isfinal() && b->verif_total() > 0 && gLoads.size() == (size_t)std::count_if(gLoads.begin(), gLoads.end(), [](const std::string &x) { return x[0] == 'f'; }) ? "F" : (b->verif_total() == 0 ? "n" : "f");
         gLoads.push_back(l + ":" + hex(b->verif_data(), 16 * (size_t)b->verif_total()));
         break; }
@@ -107,22 +110,28 @@ static bytes reference(int T, bool pad, const bytes &in) {
 static std::string gReq; static std::string gInputHex;
 static void flush_result(const std::string &status) {
   std::string out;
+  // every chunk is given to exactly one worker: a loaded chunk whose owner has returned without taking all of its blocks belongs to nobody
+  { buffergroup *g = buffergroup::verif_instance();
+    if (g && g->verif_ctrl(0)) for (int i = 0; i < gT; i++)
+      if (g->verif_ctrl(i)->verif_state() == READY && gWorkerExited[i] && gHanded[i] < gLoaded[i])
+        gAsserts.push_back("the chunk loaded into buffer " + S(i) + " (" + S(gLoaded[i]) + " blocks, " + S(gHanded[i]) + " handed out) is owned by no worker: worker " + S(i) + " has returned"); }
   for (auto &a : gAsserts) out += "A\tsched\tC14\t" + a + " -- " + gReq + "\n";
   out += "S\t" + status + "\n";
   std::string loads; for (auto &l : gLoads) loads += " " + l;
   std::string ivs; for (auto &i : gIntervals) ivs += " " + i;
   out += "P\tpipe " + S(gT) + " " + (gPad ? "1" : "0") + loads + " ;" + ivs + "\n";
-  out += "N\t" + S((long)gIntervals.size()) + "\t" + S(gExports) + "\n";
+  out += "N\t" + S((long)gIntervals.size()) + "\t" + S(gExports) + "\t" + S(vs::Sched::I().spurious) + "\n";
   out += "O\t" + hex(gOut) + "\n";
   size_t off = 0; while (off < out.size()) { ssize_t w = write(gResultFd, out.data() + off, out.size() - off); if (w <= 0) break; off += w; }
 }
 
 static void child_run(int T, bool pad, const bytes &input, uint64_t sseed, int strategy, int fd) {
   gT = T; gPad = pad; gResultFd = fd;
-  gWorkerBusy.assign(T, 0); gIoBusy.assign(T, 0);
+  gWorkerBusy.assign(T, 0); gIoBusy.assign(T, 0); gHanded.assign(T, 0); gLoaded.assign(T, 0); gWorkerExited.assign(T, 0);
   auto &SC = vs::Sched::I();
   SC.rng = sseed * 2654435761ull + 88172645463325252ull; SC.strategy = strategy;
   for (int i = 0; i < 3; i++) SC.change.push_back(5 + (long)(SC.next() % 200));
+  SC.spur_budget = (sseed % 3 == 0) ? 8 : 0;        // a third of the schedules also inject spurious wake-ups into condition waits
   SC.on_switch = on_switch; SC.on_deadlock = on_deadlock;
   SC.ensure_main();
   MemFile in(input); FILE *fi = in.openr();
@@ -145,7 +154,7 @@ static void child_run(int T, bool pad, const bytes &input, uint64_t sseed, int s
   flush_result(status);
 }
 
-static long g_sched = 0, g_intervals = 0, g_failed = 0;
+static long g_sched = 0, g_intervals = 0, g_failed = 0, g_spurious = 0;
 static void run_schedule(int T, bool pad, const bytes &input, uint64_t sseed, int strategy) {
   if (g_failed >= 6) return;     // enough concrete failing schedules: stop exploring
   g_sched++;
@@ -160,15 +169,15 @@ static void run_schedule(int T, bool pad, const bytes &input, uint64_t sseed, in
   close(p[1]);
   std::string res; char buf[65536]; ssize_t n; while ((n = read(p[0], buf, sizeof buf)) > 0) res.append(buf, n);
   close(p[0]); int st; waitpid(pid, &st, 0);
-  std::string status, pipeReq, outhex; long nint = 0, nexp = 0;
+  std::string status, pipeReq, outhex; long nint = 0, nexp = 0, nspur = 0;
   size_t pos = 0;
   while (pos < res.size()) { size_t e = res.find('\n', pos); if (e == std::string::npos) e = res.size(); std::string ln = res.substr(pos, e - pos); pos = e + 1;
     if (ln.compare(0, 2, "A\t") == 0) fprintf(g_proto, "%s\n", ln.c_str());
     else if (ln.compare(0, 2, "S\t") == 0) status = ln.substr(2);
     else if (ln.compare(0, 2, "P\t") == 0) pipeReq = ln.substr(2);
-    else if (ln.compare(0, 2, "N\t") == 0) sscanf(ln.c_str() + 2, "%ld\t%ld", &nint, &nexp);
+    else if (ln.compare(0, 2, "N\t") == 0) sscanf(ln.c_str() + 2, "%ld\t%ld\t%ld", &nint, &nexp, &nspur);
     else if (ln.compare(0, 2, "O\t") == 0) outhex = ln.substr(2); }
-  g_intervals += nint;
+  g_intervals += nint; g_spurious += nspur;
   if (status.compare(0, 4, "DONE") != 0 || !WIFEXITED(st)) g_failed++;
   if (status.compare(0, 8, "DEADLOCK") == 0) { emitA("sched", "C04", "deadlock: no runnable thread while some thread has not returned (" + status + ") " + id); }
   else if (WIFSIGNALED(st) && WTERMSIG(st) == SIGALRM) { emitA("sched", "C04", "the pipeline did not finish (endless loop) " + id); return; }
@@ -199,7 +208,7 @@ int main(int argc, char **argv) {
     if (!pad) { in.resize(n / 16 * 16 + (rng.below(4) == 0 ? rng.below(16) : 0)); if (in.size() >= 16 && rng.below(3)) in[in.size() / 16 * 16 - 1] = (unsigned char)(1 + rng.below(16)); }
     for (int k = 0; k < per; k++) run_schedule(T, pad, in, rng.next() % 1000000007ull, k % 2);
   }
-  emitI("sched", "schedules", S(g_sched)); emitI("sched", "intervals", S(g_intervals));
+  emitI("sched", "schedules", S(g_sched)); emitI("sched", "intervals", S(g_intervals)); emitI("sched", "spurious_wakeups", S(g_spurious));
   fflush(g_proto);
   return 0;
 }
